@@ -1022,3 +1022,73 @@ class KfRemoveThroughWorkspace(Contract):
 
 
 CONTRACTS = [ConcatHistories, DeleteIndexData, FetchIndex, FetchValues, FetchStartIndex, UpdateArrayAttribute]
+
+
+class LogNamesNative(Contract):
+    """Whatever a depth log of a hole in a drillhole group is called, it is either refused with nothing
+    changed or it reads back -- in the session and for a later reader -- with the hole's other logs
+    and its survey untouched (data are filed under their names next to the group's own arrays)."""
+    target = "geoh5py/shared/concatenation/concatenator.py::Concatenator.update_array_attribute"
+    variant = "log-names"
+    symbolic = False
+    has_native = True
+    props = ("C04",)
+    NAMES = ("values", "surveys", "Surveys", "trace", "Trace", "property_groups", "Property Group IDs", "index", "data", "Data", "cells", "name", "depths", "collar", "Type ID",
+             "Au ppm", "Cu/Zn", "été", "a" * 120, "Index", "Attributes", "metadata", "uid", "parent")
+    bounded_scope = f"one hole with a 3-station survey and a log 'Au'; a second log named one of {len(NAMES)} names (attribute names of the library, labels of the group's own arrays, Unicode, a slash, 120 characters); both format versions; read back in the session and after a re-open (exhaustive)"
+
+    def native_cases(self, tier, rng):
+        for name in self.NAMES:
+            for version in (2.0, 2.1):
+                yield {"name": name, "version": version}
+
+    def native_check(self, case):
+        from geoh5py.groups import DrillholeGroup
+        from geoh5py.objects import Drillhole
+        from geoh5py.workspace import Workspace
+
+        d = tempfile.mkdtemp()
+        name = case["name"]
+        try:
+            path = os.path.join(d, "n.geoh5")
+            sv = np.c_[np.r_[0.0, 50.0, 100.0], np.r_[0.0, 10.0, 20.0], -80.0 * np.ones(3)]
+            refused = False
+            try:
+                with Workspace.create(path, version=case["version"]) as ws:
+                    dg = DrillholeGroup.create(ws, name="dg")
+                    h = Drillhole.create(ws, parent=dg, name="h", collar=[0.0, 0.0, 0.0], surveys=sv)
+                    h.add_data({"Au": {"depth": np.arange(3.0), "values": np.arange(3.0)}})
+                    try:
+                        h.add_data({name: {"depth": np.arange(3.0), "values": np.arange(3.0) + 7.0}})
+                    except (ValueError, TypeError, KeyError, UserWarning) as exc:
+                        refused = True
+                        if name in h.get_data_list():
+                            return f"log name {name!r}: refused ({type(exc).__name__}) but the hole now lists it ({case})"
+                    if not refused:
+                        got = h.get_data(name)[0].values
+                        if got is None or not np.allclose(np.asarray(got, dtype=float), np.arange(3.0) + 7.0):
+                            return f"log name {name!r}: reads {got} in the session that added it ({case})"
+            except Exception as exc:
+                return f"log name {name!r}: the session that added it fails with {type(exc).__name__}: {str(exc)[:120]} ({case})"
+            try:
+                with Workspace(path, mode="r") as ws:
+                    h = ws.get_entity("h")[0]
+                    if h is None:
+                        return f"log name {name!r}: after it was {'refused' if refused else 'added'} the hole is gone ({case})"
+                    au = h.get_data("Au")[0].values
+                    s2 = np.asarray(h.surveys.tolist() if hasattr(h.surveys, "tolist") else h.surveys, dtype=float)
+                    if au is None or not np.allclose(np.asarray(au, dtype=float), np.arange(3.0)) or s2.shape != sv.shape or not np.allclose(s2, sv, atol=1e-4):
+                        return f"log name {name!r}: after it was {'refused' if refused else 'added'} the hole's other log reads {au} and its survey has shape {s2.shape} ({case})"
+                    if not refused:
+                        got = h.get_data(name)
+                        v = got[0].values if got and got[0] is not None else None
+                        if v is None or not np.allclose(np.asarray(v, dtype=float), np.arange(3.0) + 7.0):
+                            return f"log name {name!r}: is read as {v} by a later session ({case})"
+            except Exception as exc:
+                return f"log name {name!r}: after it was {'refused' if refused else 'added'} the file no longer opens / reads: {type(exc).__name__}: {str(exc)[:120]} ({case})"
+            return None
+        finally:
+            shutil.rmtree(d, ignore_errors=True)
+
+
+CONTRACTS = CONTRACTS + [LogNamesNative]
